@@ -74,6 +74,7 @@ pub fn marker_menu() -> Vec<(&'static str, Vec<HSpec>)> {
             log: true,
             last_only: false,
             merge: false,
+            streaming: false,
         }]),
         ("inner-el(title)", vec![HSpec::with_ops(
             HKind::Element,
